@@ -153,11 +153,10 @@ fn add_types_prefix(ts_type: &str) -> String {
     }
 
     // Handle arrays: CustomType[] -> types.CustomType[]
+    // The element type is qualified by the same rules (it may itself be an array, a tuple, a
+    // Record or a primitive, none of which takes a `types.` prefix)
     if let Some(base_type) = ts_type.strip_suffix("[]") {
-        if matches!(base_type, "string" | "number" | "boolean" | "void") {
-            return ts_type.to_string();
-        }
-        return format!("types.{}[]", base_type);
+        return format!("{}[]", add_types_prefix(base_type));
     }
 
     // Handle Record/Map - they contain types but the structure itself doesn't need prefix
